@@ -34,6 +34,8 @@ import (
 	"verif/harness/vf"
 )
 
+func init() { c08Secp256k1Singleton = secp256k1.Curve() }
+
 // c08Mat is replayable key material.  Integers are big-endian hex.
 type c08Mat struct {
 	Kind string `json:"kind"` // ec | ecdh | rsa | okp | oct
